@@ -1,6 +1,7 @@
 package main
 
 import (
+	"strings"
 	"fmt"
 	"go/token"
 
@@ -23,6 +24,11 @@ func init() {
 }
 
 func rulesC03(w *World, r *Report) {
+	// a decoder that keeps a numbering table from the previous message resolves
+	// the type / class / object references of a legal encoding to stale entries
+	includeIf(w, r, "C11", "the decoder's tables start empty for every message", 3, func(o *Obligation) bool {
+		return strings.Contains(o.Key, "C11.R1") && strings.Contains(o.Key, "· Decoder.")
+	})
 	w.ruleGetTagProtocol(r, "C03.R0 tag hand-on protocol")
 	w.ruleDispatchCoverage(r, "C03.R1 dispatch coverage")
 	for _, c := range []string{"int", "long", "double", "date", "bool"} {
